@@ -93,7 +93,7 @@ Theorem c01_translated_next_str_is_model :
 Proof. exact g_next_str_eq. Qed.
 
 Theorem c01_translated_utf8_add_is_model :
-  forall u b, g_utf8_add u b = Some (utf8_add u b).
+  forall u b, g_utf8_add u b = utf8_add u b.
 Proof. exact g_utf8_add_eq. Qed.
 
 (* strip_bytes(data).into_vec(), translated from end to end *)
